@@ -188,7 +188,11 @@ class LayoutScenario(explore.Scenario):
                 ["blocks", "B2", "ior_live", "B1"],
                 ["blocks", "B1", "update_live", "B2"],
                 ["ivs", "S2", "ior_live", "S1"],
-                ["ivs", "S1", "ixor_live", "S2"]]
+                ["ivs", "S1", "ixor_live", "S2"],
+                ["ivs", "S2", "update_live", "S1"],
+                # one-shot iterators as operands
+                ["ivs", "S1", "update_gen", ["B4", "B2"]],
+                ["blocks", "B1", "update_gen", ["K4", "K3"]]]
         for t in ("M2", "M1", None):
             out.append(["smove", "S2", t])
         out += [["mmove", "M1", None], ["mmove", "M1", "I1"]]
@@ -220,6 +224,8 @@ class LayoutScenario(explore.Scenario):
                     coll.clear()
                 elif op[2] == "update":
                     coll.update([O[x] for x in op[3]])
+                elif op[2] == "update_gen":
+                    coll.update(O[x] for x in op[3])
                 elif op[2].endswith("_live"):
                     other = (O[op[3]].blocks if kind == "blocks"
                              else O[op[3]].byte_intervals)
